@@ -241,9 +241,9 @@ func vfFoldStr(m map[string]bool) string {
 
 func vfC05Scenarios(thorough bool) []*vfGWScenario {
 	var out []*vfGWScenario
-	d := 5
+	d := 6
 	if thorough {
-		d = 7
+		d = 9
 	}
 	mk := func(name, router string, q int, extra map[string]string, prefix, alphabet []string) {
 		proto := "fs"
